@@ -831,9 +831,9 @@ func engineRapid(cfg config, o *out) {
 	all = append(all, buildDynSchema())
 	o.hist["programs"] = len(all)
 	budget := 6e4
-	seeds := 3
+	seeds := 6
 	if cfg.thorough() {
-		budget, seeds = 1.5e5, 16
+		budget, seeds = 1.5e5, 36
 	}
 	r := newRng(cfg.seed, "rapid")
 	for _, rs := range all {
